@@ -145,27 +145,103 @@ def run(repo, res, tier):
         if not found:
             raise AnalysisError("%s.contains: dispatch test not found" % cn)
 
-    # ---------------------------------------------------------------- Q3..Q5 is_reached
+    # ---------------------------------------------------------------- Q3..Q5 is_reached (region: is_reached + the
+    # same-class helpers it hands the state / goal state to; layout independent)
     isr = goal.methods["is_reached"]
     qn = "GoalRegion.is_reached"
-    loops = [n for n in isr.body if isinstance(n, ast.For)]
-    if len(loops) != 1 or norm(loops[0].iter) not in ("self.state_list", "self._state_list"):
+    rd = ReachingDefs(isr)
+    loops = [n for n in ast.walk(isr) if isinstance(n, (ast.For, ast.GeneratorExp, ast.ListComp)) and any(canon(it, rd, None, []) == "self.state_list" for it in ([n.iter] if isinstance(n, ast.For) else [g.iter for g in n.generators]))]
+    if len(loops) != 1:
         raise AnalysisError("is_reached: loop over the goal states not found")
     loop = loops[0]
-    gvar = loop.target.id
-    rd = ReachingDefs(isr)
-    checked = {}
-    flag = None
-    for n in ast.walk(loop):
-        if isinstance(n, ast.Assign) and isinstance(n.targets[0], ast.Name) and isinstance(n.value, ast.BoolOp) and isinstance(n.value.op, ast.And):
-            vals = n.value.values
-            if isinstance(vals[0], ast.Name) and vals[0].id == n.targets[0].id and len(vals) == 2:
-                flag = flag or n.targets[0].id
-                chk = vals[1]
-                # attribute name: from the goal-side operand
-                attrs = {a.attr for a in ast.walk(chk) if isinstance(a, ast.Attribute) and isinstance(a.value, ast.Name) and a.value.id in (gvar,)}
-                for a in attrs - {"contains_point"}:
-                    checked[a] = (n, chk)
+    gvar = norm(loop.target) if isinstance(loop, ast.For) else norm(loop.generators[0].target)
+    svar = None
+    for n in ast.walk(isr):
+        if isinstance(n, ast.Assign) and isinstance(n.value, ast.Call) and norm(n.value.func).endswith("_harmonize_state_types") and isinstance(n.targets[0], ast.Tuple):
+            svar = n.targets[0].elts[0].id
+    if svar is None:
+        raise AnalysisError("is_reached: harmonized state variable not found")
+
+    class Chk:
+        pass
+
+    def attr_names(e, fn_):
+        """(base name, set of attribute names) an expression `x.a` / getattr(x, v) denotes"""
+        if isinstance(e, ast.Attribute) and isinstance(e.value, ast.Name):
+            return e.value.id, {e.attr}
+        if isinstance(e, ast.Call) and call_name(e) == "getattr" and len(e.args) >= 2 and isinstance(e.args[0], ast.Name):
+            v = e.args[1]
+            if isinstance(v, ast.Constant):
+                return e.args[0].id, {v.value}
+            if isinstance(v, ast.Name):
+                for lp in ast.walk(fn_):
+                    if isinstance(lp, ast.For) and norm(lp.target) == v.id and isinstance(lp.iter, (ast.Tuple, ast.List)) and all(isinstance(x, ast.Constant) for x in lp.iter.elts) and any(y is e for y in ast.walk(lp)):
+                        return e.args[0].id, {x.value for x in lp.iter.elts}
+        return None, set()
+
+    checks = []
+    region = [(isr, {svar: "state", gvar: "goal"})]
+    seen_fn = {id(isr)}
+    i = 0
+    while i < len(region):
+        fn_, roles = region[i]
+        i += 1
+        for c in ast.walk(fn_):
+            if not isinstance(c, ast.Call):
+                continue
+            f = c.func
+            if isinstance(f, ast.Attribute) and f.attr == "_check_value_in_interval" and len(c.args) == 2:
+                k = Chk()
+                k.call, k.fn, k.roles = c, fn_, roles
+                k.sb, k.sa = attr_names(c.args[0], fn_)
+                k.gb, k.ga = attr_names(c.args[1], fn_)
+                checks.append(k)
+            elif isinstance(f, ast.Attribute) and f.attr == "contains_point" and len(c.args) == 1:
+                k = Chk()
+                k.call, k.fn, k.roles = c, fn_, roles
+                k.sb, k.sa = attr_names(c.args[0], fn_)
+                k.gb, k.ga = attr_names(f.value, fn_)
+                checks.append(k)
+            elif isinstance(f, ast.Attribute) and isinstance(f.value, ast.Name) and f.value.id in ("self", "cls") and f.attr not in ("_harmonize_state_types", "_check_value_in_interval"):
+                h = goal.methods.get(f.attr)
+                if h is not None and id(h) not in seen_fn:
+                    hp = [x.arg for x in h.args.args]
+                    hp = hp[1:] if hp and hp[0] in ("self", "cls") else hp
+                    r2 = {}
+                    for pn_, a_ in list(zip(hp, c.args)) + [(kw.arg, kw.value) for kw in c.keywords if kw.arg]:
+                        if isinstance(a_, ast.Name) and a_.id in roles:
+                            r2[pn_] = roles[a_.id]
+                    if r2:
+                        seen_fn.add(id(h))
+                        region.append((h, r2))
+    if len(checks) < 3:
+        raise AnalysisError("is_reached: only %d attribute checks found in %s" % (len(checks), [f.name for f, _r in region]))
+    checked = set()
+    for k in checks:
+        t = norm(k.call)[:100]
+        ok = k.roles.get(k.sb) == "state" and k.roles.get(k.gb) == "goal" and bool(k.sa) and k.sa == k.ga
+        res.check("Q5-PAIRING", "check %s pairs state.%s with goal.%s" % (t, sorted(k.sa), sorted(k.ga)), ok, gmod, k.call, "%s: %s" % (k.fn.name, t), "the state's attribute is not compared with the goal's attribute of the same name (on the harmonized state)", qualname="GoalRegion." + k.fn.name)
+        if ok:
+            checked |= set(k.sa)
+        # conjunctive use of the check
+        par = gmod.parent.get(k.call)
+        conj = False
+        node = k.call
+        while isinstance(par, ast.BoolOp) and isinstance(par.op, ast.And):
+            node, par = par, gmod.parent.get(par)
+        if isinstance(par, (ast.Assign, ast.Return)):
+            conj = True  # flag = flag and check  /  return a and check  /  return check
+            if isinstance(par, ast.Assign) and isinstance(node, ast.BoolOp):
+                tgt = norm(par.targets[0])
+                conj = any(norm(v) == tgt for v in node.values)
+            elif isinstance(par, ast.Assign):
+                conj = False
+        elif isinstance(par, ast.UnaryOp) and isinstance(par.op, ast.Not):
+            iff = gmod.parent.get(par)
+            if isinstance(iff, ast.If) and iff.test is par and len(iff.body) == 1:
+                st0 = iff.body[0]
+                conj = (isinstance(st0, ast.Return) and isinstance(st0.value, ast.Constant) and st0.value.value is False) or (isinstance(st0, ast.Assign) and isinstance(st0.value, ast.Constant) and st0.value.value is False)
+        res.check("Q4-LOGIC", "check of %s is conjoined into the per-goal result" % sorted(k.sa), conj, gmod, k.call, "%s: %s" % (k.fn.name, t), "a failing attribute check does not make the goal state unreached (the checks are not and-ed)", qualname="GoalRegion." + k.fn.name)
     valid = None
     vfn = goal.methods["_validate_goal_state"]
     for n in walk_no_nested(vfn):
@@ -174,36 +250,51 @@ def run(repo, res, tier):
     if valid is None:
         raise AnalysisError("_validate_goal_state: list of valid fields not found")
     res.check("Q3-FIELDS", "validated %s = checked %s" % (sorted(valid), sorted(checked)), sorted(valid) == sorted(checked), gmod, isr, "is_reached checks %s, goal states may constrain %s" % (sorted(checked), sorted(valid)), "a goal state may constrain an attribute that is_reached never checks (or vice versa): the constraint is silently ignored", qualname=qn)
-    # Q4: initial flag True, each check conjoined, appended once per goal state, any() at the end
-    init = [n for n in loop.body if isinstance(n, ast.Assign) and isinstance(n.targets[0], ast.Name) and n.targets[0].id == flag]
-    res.check("Q4-LOGIC", "per-goal flag starts True", bool(init) and isinstance(init[0].value, ast.Constant) and init[0].value.value is True, gmod, loop, "is_reached flag initialisation", "the conjunction does not start from True", qualname=qn)
-    for a, (n, chk) in sorted(checked.items()):
-        res.ok("Q4-LOGIC", "%s: %s" % (a, norm(n)[:100]))
-    # no assignment to the flag other than init and `flag = flag and ..`
-    others = [n for n in ast.walk(loop) if isinstance(n, (ast.Assign, ast.AugAssign)) and any(isinstance(t, ast.Name) and t.id == flag for t in (n.targets if isinstance(n, ast.Assign) else [n.target])) and n not in init and n not in [x[0] for x in checked.values()]]
-    res.check("Q4-LOGIC", "flag only conjoined", not others, gmod, others[0] if others else loop, "is_reached flag assignments %s" % [norm(o)[:60] for o in others], "a later assignment overrides the conjunction of the attribute checks", qualname=qn)
-    apps = [n for n in ast.walk(loop) if isinstance(n, ast.Call) and isinstance(n.func, ast.Attribute) and n.func.attr == "append" and n.args and norm(n.args[0]) == flag]
-    ok = len(apps) == 1 and mod_parent_is(gmod, apps[0], loop)
-    lst = norm(apps[0].func.value) if apps else None
-    res.check("Q4-LOGIC", "flag appended once per goal state", ok, gmod, loop, "is_reached append", "the per-goal results are not collected once per goal state", qualname=qn)
-    rets = [n for n in walk_no_nested(isr) if isinstance(n, ast.Return)]
-    ok = len(rets) == 1 and norm(rets[0].value) in ("np.any(%s)" % lst, "any(%s)" % lst, "bool(np.any(%s))" % lst)
-    res.check("Q4-LOGIC", "result = any(goal results)", ok, gmod, isr, "is_reached return %s" % (norm(rets[0].value) if rets else "?"), "the goal region is not the union of its goal states", qualname=qn)
-    # Q5 pairing
-    svar = None
-    for n in walk_no_nested(isr):
-        if isinstance(n, ast.Assign) and isinstance(n.value, ast.Call) and norm(n.value.func).endswith("_harmonize_state_types") and isinstance(n.targets[0], ast.Tuple):
-            svar = n.targets[0].elts[0].id
-    if svar is None:
-        raise AnalysisError("is_reached: harmonized state variable not found")
-    for a, (n, chk) in sorted(checked.items()):
-        t = norm(chk)
-        if a == "position":
-            ok = t == "%s.position.contains_point(%s.position)" % (gvar, svar)
-        else:
-            ok = t == "self._check_value_in_interval(%s.%s, %s.%s)" % (svar, a, gvar, a)
-        guards = [norm(g) for g, pol in dominating_guards(gmod, n, stop=isr) if pol]
-        res.check("Q5-PAIRING", "check of %s: %s" % (a, t), ok, gmod, n, "is_reached: %s" % t, "the state's attribute is not compared with the goal's attribute of the same name (on the harmonized state)", qualname=qn)
+    # helper predicates: every returned value is True / False / a conjunction containing checks
+    for fn_, _roles in region[1:]:
+        for r in walk_no_nested(fn_):
+            if isinstance(r, ast.Return):
+                v = r.value
+                ok = isinstance(v, ast.Constant) and v.value in (True, False) or any(any(k.call is y for y in ast.walk(v)) for k in checks) if v is not None else False
+                res.check("Q4-LOGIC", "%s returns a truth value of its checks" % fn_.name, ok, gmod, r, "%s: %s" % (fn_.name, norm(r)[:80]), "the per-goal predicate returns something else than the conjunction of its checks", qualname="GoalRegion." + fn_.name)
+    # flag style inside is_reached: starts True, only conjoined
+    flags = {norm(gmod.parent.get(k.call if not isinstance(gmod.parent.get(k.call), ast.BoolOp) else gmod.parent.get(k.call)).targets[0]) for k in checks if k.fn is isr and isinstance(gmod.parent.get(k.call), ast.BoolOp) and isinstance(gmod.parent.get(gmod.parent.get(k.call)), ast.Assign)}
+    for flag in sorted(flags):
+        inits = [n for n in ast.walk(loop) if isinstance(n, ast.Assign) and norm(n.targets[0]) == flag and not isinstance(n.value, ast.BoolOp)]
+        res.check("Q4-LOGIC", "per-goal flag %s starts True and is only conjoined" % flag, len(inits) == 1 and isinstance(inits[0].value, ast.Constant) and inits[0].value.value is True, gmod, loop, "is_reached flag assignments %s" % [norm(o)[:60] for o in inits], "the conjunction does not start from True or is overridden later", qualname=qn)
+    # the region-level disjunction over goal states
+    per_goal = None
+    ok = False
+    if isinstance(loop, ast.For):
+        apps = [n for n in ast.walk(loop) if isinstance(n, ast.Call) and isinstance(n.func, ast.Attribute) and n.func.attr == "append" and len(n.args) == 1]
+        rets = [n for n in walk_no_nested(isr) if isinstance(n, ast.Return)]
+        lists = {norm(a.func.value) for a in apps}
+        for lst in lists:
+            mine = [a for a in apps if norm(a.func.value) == lst]
+            final = [r for r in rets if r.value is not None and norm(r.value) in ("np.any(%s)" % lst, "any(%s)" % lst, "bool(np.any(%s))" % lst)]
+            if final and len(rets) == 1 and len(mine) == 1 and mod_parent_is(gmod, mine[0], loop):
+                per_goal = mine[0].args[0]
+                ok = True
+        if not ok:
+            # early `return True` per reached goal state, False after the loop
+            trues = [r for r in ast.walk(loop) if isinstance(r, ast.Return) and isinstance(r.value, ast.Constant) and r.value.value is True]
+            tail = [r for r in isr.body if isinstance(r, ast.Return)]
+            if len(trues) == 1 and len(tail) == 1 and isinstance(tail[0].value, ast.Constant) and tail[0].value.value is False:
+                iff = gmod.parent.get(trues[0])
+                if isinstance(iff, ast.If):
+                    per_goal = iff.test
+                    ok = True
+    else:
+        par = gmod.parent.get(loop)
+        if isinstance(par, ast.Call) and norm(par.func) in ("any", "np.any") and isinstance(gmod.parent.get(par), ast.Return):
+            per_goal = loop.elt
+            ok = True
+    res.check("Q4-LOGIC", "result = any(per-goal results), one per goal state", ok, gmod, isr, "is_reached combination", "the goal region is not the union of its goal states", qualname=qn)
+    if per_goal is not None:
+        # the per-goal value is the flag or the helper predicate (or a conjunction of checks)
+        t = norm(per_goal)
+        okp = t in flags or (isinstance(per_goal, ast.Call) and isinstance(per_goal.func, ast.Attribute) and any(per_goal.func.attr == f.name for f, _r in region[1:])) or any(any(k.call is y for y in ast.walk(per_goal)) for k in checks)
+        res.check("Q4-LOGIC", "the per-goal result is the conjunction of the attribute checks", okp, gmod, per_goal, "is_reached per-goal value %s" % t[:80], "what is collected per goal state is not the result of its attribute checks", qualname=qn)
     cvi = goal.methods["_check_value_in_interval"]
     t = " ; ".join(norm(s) for s in cvi.body if not (isinstance(s, ast.Expr) and isinstance(s.value, ast.Constant)))
     p1, p2 = cvi.args.args[1].arg, cvi.args.args[2].arg
@@ -213,35 +304,60 @@ def run(repo, res, tier):
     norms = [n for n in walk_no_nested(hz) if isinstance(n, ast.Call) and norm(n.func) in ("np.linalg.norm", "math.hypot", "np.hypot")]
     ok = len(norms) == 1
     if ok:
+        from ..flowtools import mentions
+
         t = canon(norms[0], hrd, None, [a.arg for a in hz.args.args])
-        ok = ".velocity" in t and ".velocity_y" in t
+        ok = mentions(t, "velocity") and mentions(t, "velocity_y")
     res.check("Q5-PAIRING", "speed = norm(velocity, velocity_y)", ok, gmod, hz, "_harmonize_state_types speed", "speed of a point-mass state is not hypot(vx, vy)", qualname="GoalRegion._harmonize_state_types")
     # heading convention atan2(vy, vx) at every site of the package
+    from ..flowtools import mentions as _m
+
     n_at = 0
     for rel in (G, ST, PR):
         m = repo.mod(rel)
-        for n in ast.walk(m.tree):
-            if isinstance(n, ast.Call) and norm(n.func) in ("math.atan2", "np.arctan2", "numpy.arctan2") and len(n.args) == 2:
-                a0, a1 = norm(n.args[0]), norm(n.args[1])
-                if "velocity" in a0 or "velocity" in a1:
-                    n_at += 1
-                    ok = "velocity_y" in a0 and "velocity_y" not in a1 and "velocity" in a1
-                    res.check("Q5-PAIRING", "%s: %s" % (rel.split("/")[-1], norm(n)), ok, m, n, "%s: %s" % (m.qualname(n), norm(n)), "heading of a point-mass state must be atan2(vy, vx)", qualname=m.qualname(n))
+        for fdef in [x for x in ast.walk(m.tree) if isinstance(x, ast.FunctionDef)]:
+            frd = None
+            for n in walk_no_nested(fdef):
+                if isinstance(n, ast.Call) and norm(n.func) in ("math.atan2", "np.arctan2", "numpy.arctan2") and len(n.args) == 2:
+                    frd = frd or ReachingDefs(fdef)
+                    a0, a1 = [canon(x, frd, frd.stmt_of(n), []) for x in n.args]
+                    if _m(a0, "velocity") or _m(a1, "velocity") or _m(a0, "velocity_y") or _m(a1, "velocity_y"):
+                        n_at += 1
+                        ok = _m(a0, "velocity_y") and not _m(a1, "velocity_y") and _m(a1, "velocity")
+                        res.check("Q5-PAIRING", "%s: %s" % (rel.split("/")[-1], norm(n)), ok, m, n, "%s: %s" % (m.qualname(n), norm(n)), "heading of a point-mass state must be atan2(vy, vx)", qualname=m.qualname(n))
     if n_at < 2:
         raise AnalysisError("fewer than 2 atan2(velocity_y, velocity) sites found")
 
     # ---------------------------------------------------------------- Q6
     pmod = repo.mod(PP)
     gr = repo.method(PP, "PlanningProblem", "goal_reached")
-    loops = [n for n in gr.body if isinstance(n, ast.For)]
-    ok = len(loops) == 1 and isinstance(loops[0].target, ast.Tuple) and len(loops[0].target.elts) == 2 and "enumerate(trajectory.state_list)" in norm(loops[0].iter)
-    if ok:
-        i, s = [e.id for e in loops[0].target.elts]
-        rets = [n for n in ast.walk(loops[0]) if isinstance(n, ast.Return)]
-        ok = len(rets) == 1 and norm(rets[0].value) == "(True, %s)" % i
-        if ok:
-            g = [norm(t) for t, pol in dominating_guards(pmod, rets[0], stop=gr) if pol]
-            ok = g == ["self.goal.is_reached(%s)" % s]
+    grd = ReachingDefs(gr)
+    tpar = gr.args.args[1].arg
+    succ = [r for r in walk_no_nested(gr) if isinstance(r, ast.Return) and isinstance(r.value, ast.Tuple) and len(r.value.elts) == 2 and isinstance(r.value.elts[0], ast.Constant) and r.value.elts[0].value is True]
+    ok = len(succ) >= 1
+    for r in succ:
+        idx = r.value.elts[1]
+        tests = [t for t, pol in dominating_guards(pmod, r, stop=gr) if pol and isinstance(t, ast.Call) and isinstance(t.func, ast.Attribute) and t.func.attr == "is_reached" and len(t.args) == 1]
+        good = False
+        for t in tests:
+            recv = canon(t.func.value, grd, grd.stmt_of(t), [tpar])
+            st_ = t.args[0]
+            if recv not in ("self.goal", "self.goal_region"):
+                continue
+            # (a) the tested state is state_list[idx]
+            if canon(st_, grd, grd.stmt_of(t), [tpar]) == "%s.state_list[%s]" % (tpar, norm(idx)):
+                good = True
+            # (b) idx and the tested state are the two components of enumerate(state_list)
+            lp = pmod.parent.get(r)
+            while lp is not None and not isinstance(lp, ast.For):
+                lp = pmod.parent.get(lp)
+            if lp is not None and isinstance(lp.target, ast.Tuple) and len(lp.target.elts) == 2 and [norm(x) for x in lp.target.elts] == [norm(idx), norm(st_)]:
+                it = lp.iter
+                while isinstance(it, ast.Call) and norm(it.func) in ("reversed", "list", "tuple") and len(it.args) == 1:
+                    it = it.args[0]
+                if isinstance(it, ast.Call) and norm(it.func) == "enumerate" and len(it.args) == 1 and canon(it.args[0], grd, lp, [tpar]) == "%s.state_list" % tpar:
+                    good = True
+        ok = ok and good
     res.check("Q6-INDEX", "goal_reached returns (True, index of the state for which is_reached held)", ok, pmod, gr, "goal_reached success return", "the reported index does not belong to a state that reaches the goal", qualname="PlanningProblem.goal_reached")
     tail = [n for n in gr.body if isinstance(n, ast.Return)]
     res.check("Q6-INDEX", "goal_reached returns (False, -1) when no state reaches the goal", len(tail) == 1 and norm(tail[0].value) == "(False, -1)", pmod, gr, "goal_reached failure return", "failure is not reported as (False, -1)", qualname="PlanningProblem.goal_reached")
